@@ -59,6 +59,23 @@ fn set_env_free() -> (u8, bool, bool, u8, bool, bool) {
         G_TERM = v.4;
         G_CI = v.5;
     }
+    // native replay: there are no stubs, so the same situation is set up in the real process
+    // environment and the real probes run
+    #[cfg(not(kani))]
+    {
+        fn put(k: &str, val: Option<&str>) {
+            match val {
+                Some(x) => std::env::set_var(k, x),
+                None => std::env::remove_var(k),
+            }
+        }
+        choice_of(v.0).write_global();
+        put("NO_COLOR", if v.1 { Some("1") } else { None });
+        put("CLICOLOR_FORCE", if v.2 { Some("1") } else { None });
+        put("CLICOLOR", match v.3 { 0 => None, 1 => Some("0"), _ => Some("1") });
+        put("TERM", if v.4 { Some("xterm-256color") } else { Some("dumb") });
+        put("CI", if v.5 { Some("true") } else { None });
+    }
     v
 }
 
@@ -87,6 +104,7 @@ fn want_choice(global: u8, no_color: bool, force: bool, clicolor: u8, term: bool
     kani::stub(anstyle_query::clicolor, stub_clicolor),
     kani::stub(anstyle_query::term_supports_color, stub_term),
     kani::stub(anstyle_query::is_ci, stub_ci))]
+#[cfg_attr(not(kani), test)]
 fn auto_choice_precedence() {
     let (g, nc, f, cc, t, ci) = set_env_free();
     let mut m = Mock::new(0);
